@@ -2,8 +2,8 @@
 (* Refinement: the implementation-shaped model of the flat pipeline computes, for every tree and every  *)
 (* rendering inside the bound, a value that equals the reference meaning modulo AC of flagged operators *)
 (* - uncompiled, compiled and compiled again (C01, C02).                                                 *)
-EXTENDS FlatImpl, Gen, Tables
-CONSTANTS T, NLeaves, MaxUn, WithConst, Shard, NShards
+EXTENDS DeepImpl, Gen, Tables, Json
+CONSTANTS T, NLeaves, MaxUn, WithConst, Shard, NShards, Emit
 VARIABLE tree
 Init == tree \in ShardTrees(T, NLeaves, MaxUn, WithConst, Shard, NShards)
 Next == UNCHANGED tree
@@ -25,4 +25,18 @@ RefinesOne ==
 \* folding makes progress exactly on literal pairs and never grows the expression
 Shrinks ==
   LET f == Build(T, Toks("min")) c == Compile(f) IN Len(c.nodes) <= Len(f.nodes) /\ Len(c.ops) + 1 = Len(c.nodes)
+\* ---- model conformance: the structures the models predict, to be compared with the verif_dump hook of the real code ----
+FlatShape(f) == [nodes |-> [j \in 1..Len(f.nodes) |-> [k |-> f.nodes[j].kind, un |-> f.nodes[j].un]],
+                 ops   |-> [j \in 1..Len(f.ops) |-> [idx |-> f.ops[j].o, prio |-> f.ops[j].prio, un |-> f.ops[j].un]],
+                 prio  |-> f.prio]
+RECURSIVE DeepShape(_)
+DeepShape(e) == [nodes |-> [j \in 1..Len(e.nodes) |-> IF e.nodes[j].k = "expr" THEN [k |-> "expr", e |-> DeepShape(e.nodes[j].e)]
+                                                        ELSE [k |-> e.nodes[j].k]],
+                 ops |-> [j \in 1..Len(e.ops) |-> e.ops[j].o], un |-> e.un]
+EmitModel ==
+  Emit => \A m \in {"min", "full"} :
+     LET tk == Toks(m) f == Build(T, tk) IN
+     PrintT(ToJson([text |-> Text(T, tk, "spaced", FALSE), flat_wo |-> FlatShape(f), flat |-> FlatShape(Compile(f)),
+                    deep |-> DeepShape(DParse(T, tk).e)]))
+ASSUME Emit => PrintT(ToJson([table |-> T]))
 =============================================================================
